@@ -196,6 +196,90 @@ func rulesC12(c *Ctx) {
 	}
 	c.Floor("C12.merge", nMerge, 2)
 
+	// ---- every accumulation of a looked-up type goes through LessThan ----
+	c.Rule("C12.mergeguard", "where a local of type DataType takes, on one branch, a type that a call just returned (the mapper's answer for one source, the evaluated type of a subquery column) and keeps its old value on the other, the branch is decided by old.LessThan(new): a test of the old value against a constant (`typ == Unknown`) keeps whatever the first source said, so the type of a field held as integer in one measurement and float in another depends on the order of the FROM list")
+	nGuard := 0
+	for _, f := range p.allSSAFuncs() {
+		ord := 0
+		for _, b := range f.Blocks {
+			for _, in := range b.Instrs {
+				phi, ok := in.(*ssa.Phi)
+				if !ok || dt == nil || !types.Identical(phi.Type(), dt) {
+					continue
+				}
+				for i, e := range phi.Edges {
+					switch e.(type) {
+					case *ssa.Call, *ssa.Extract:
+					default:
+						continue
+					}
+					// the other edges carry the old value (a phi or the zero constant)
+					var old ssa.Value
+					for j, o := range phi.Edges {
+						if j != i {
+							if _, isPhi := o.(*ssa.Phi); isPhi {
+								old = o
+							}
+						}
+					}
+					if old == nil {
+						continue
+					}
+					pred := b.Preds[i]
+					if len(pred.Preds) != 1 {
+						continue
+					}
+					pp := pred.Preds[0]
+					ifi, ok := pp.Instrs[len(pp.Instrs)-1].(*ssa.If)
+					if !ok {
+						continue
+					}
+					ord++
+					nGuard++
+					key := fmt.Sprintf("%s: looked-up type kept #%d", ssaFuncName(f), ord)
+					switch cnd := ifi.Cond.(type) {
+					case *ssa.Call:
+						if cnd.Call.StaticCallee() == ltSSA && ltSSA != nil {
+							c.OK("C12.mergeguard", key, cnd.Pos(), "decided by LessThan")
+						} else {
+							c.Unk("C12.mergeguard", key, ifi.Cond.Pos(), "decided by a call this rule does not evaluate")
+						}
+					case *ssa.BinOp:
+						_, cy := cnd.Y.(*ssa.Const)
+						_, cx := cnd.X.(*ssa.Const)
+						isOld := func(v ssa.Value) bool {
+							if v == old || v == ssa.Value(phi) {
+								return true
+							}
+							for j, o := range phi.Edges {
+								if j != i && o == v {
+									return true
+								}
+							}
+							// the accumulator as it stood at the loop head
+							if ph, ok := v.(*ssa.Phi); ok {
+								for _, o := range ph.Edges {
+									if o == ssa.Value(phi) {
+										return true
+									}
+								}
+							}
+							return false
+						}
+						if (isOld(cnd.X) && cy) || (isOld(cnd.Y) && cx) {
+							c.Bad("C12.mergeguard", key, cnd.Pos(), "the new type is kept only when the old one "+cnd.Op.String()+" a constant: the first source that knows the field decides, not the precedence order")
+						} else {
+							c.Unk("C12.mergeguard", key, cnd.Pos(), "decided by a comparison this rule does not evaluate")
+						}
+					default:
+						c.Unk("C12.mergeguard", key, pp.Instrs[len(pp.Instrs)-1].Pos(), "decided by a condition this rule does not evaluate")
+					}
+				}
+			}
+		}
+	}
+	c.Floor("C12.mergeguard", nGuard, 2)
+
 	// ---- the field set is only ever read ----
 	c.Rule("C12.fieldset", "RewriteFields never removes entries from the schema's field set; it removes entries from the dimension set only when there is no dimension wildcard (tags the statement already groups by are left out of the fields)")
 	rf := p.SSAFunc(p.Method("SelectStatement", "RewriteFields"))
@@ -249,6 +333,7 @@ func rulesC12(c *Ctx) {
 	tagArgsC12(c)
 	c.Rule("C12.allsources", "in RewriteFields no loop over the statement's sources is left by `break`: a loop that stops at the first source of another kind leaves the subqueries after it unexpanded and untyped, and the result depends on the order the sources are written in")
 	loopNoBreak(c, "C12.allsources", p.Method("SelectStatement", "RewriteFields"), "(*SelectStatement).RewriteFields", "Sources", "the loop over the sources is left by break: sources after that point are not rewritten")
+	sourceMemoRule(c, "C12.sourcememo")
 }
 
 // phaseOrderC12: subqueries are rewritten before the outer statement's
